@@ -247,6 +247,24 @@ def search_with_urls(contract, seed_inputs, budget, seed):
     return None, None, tried
 
 
+def own_literals(contract):
+    """non-alphanumeric characters of the string literals in the real function's own source"""
+    import ast
+    import inspect
+    import textwrap
+    out = []
+    try:
+        tree = ast.parse(textwrap.dedent(inspect.getsource(resolve(contract.qual))))
+    except (OSError, TypeError, SyntaxError):
+        return out
+    for n in ast.walk(tree):
+        if isinstance(n, ast.Constant) and isinstance(n.value, str) and len(n.value) <= 2:
+            for c in n.value:
+                if not c.isalnum() and c not in out:
+                    out.append(c)
+    return out
+
+
 def search(contract, seed_inputs, budget=60000, seed=0):
     if any(isinstance(v, dict) and "__url__" in v for v in seed_inputs.values()):
         return search_with_urls(contract, seed_inputs, budget, seed)
@@ -282,6 +300,17 @@ def search(contract, seed_inputs, budget=60000, seed=0):
     # 2. exhaustive short strings (single string parameter) / random (several)
     if len(strs) == 1:
         n = strs[0]
+        own = own_literals(contract)
+        if 0 < len(own) <= 3:
+            # few significant characters: enumerate longer strings over them and one letter
+            small2 = own + ["a"]
+            for L in range(0, 8):
+                for tup in itertools.product(small2, repeat=L):
+                    cand = dict(base)
+                    cand[n] = "".join(tup)
+                    j = attempt(cand)
+                    if j:
+                        return cand, j, tried
         small = [c for c in alpha if not c.isalnum()][:11] + [c for c in alpha if c.isalnum()][:2]
         for L in range(0, 5):
             for tup in itertools.product(small, repeat=L):
